@@ -79,6 +79,16 @@ func simC20(c *sim.Ctx) {
 		r.LossErrors = loss
 		asm := b.NewActor("assembler")
 		con := b.NewActor("consumer")
+		// scheduling points between the channel operations of the reader:
+		// sites 1 and 5 are on the assembler side, 2-4 on the consumer side
+		tcpreader.VerifYield = func(site int) {
+			if site == 1 || site == 5 {
+				asm.Yield(site)
+			} else {
+				con.Yield(site)
+			}
+		}
+		defer func() { tcpreader.VerifYield = nil }()
 		started := 0 // batches whose Reassembled call has begun
 		completed := false
 		asmStep := 0
@@ -182,12 +192,22 @@ func simC20(c *sim.Ctx) {
 		closes := 0
 		for steps := 0; steps < 600; steps++ {
 			b.Settle()
-			asmCan := asm.AtGate() && !completed
-			conCan := con.AtGate() && !conDone
+			asmCan := (asm.AtGate() && !completed) || asm.Yielded()
+			conCan := (con.AtGate() && !conDone) || con.Yielded()
 			if !asmCan && !conCan {
 				break
 			}
 			pickAsm := asmCan && (!conCan || c.Draw(2) == 0)
+			if pickAsm && asm.Yielded() {
+				c.Ev("resume_assembler", int64(asm.Site))
+				b.Resume(asm)
+				continue
+			}
+			if !pickAsm && con.Yielded() {
+				c.Ev("resume_consumer", int64(con.Site))
+				b.Resume(con)
+				continue
+			}
 			if pickAsm {
 				if asmStep < len(batches) {
 					i := asmStep
@@ -248,6 +268,15 @@ func simC20(c *sim.Ctx) {
 			b.Step(con, func() { readOnce(size) })
 		}
 		b.Settle()
+		for k := 0; k < 20 && (asm.Yielded() || con.Yielded()); k++ {
+			// nothing else is enabled: let whoever is parked at a hook go on
+			if asm.Yielded() {
+				b.Resume(asm)
+			}
+			if con.Yielded() {
+				b.Resume(con)
+			}
+		}
 		// both sides must have run to completion
 		if !completed || !asm.AtGate() {
 			c.Fail("liveness", "assembler-wedged", "ReaderStream", "the assembler side is stuck (batch %d of %d delivered, completion %v) although the consumer %s", asmStep, len(batches), completed, consumerState(closedByConsumer, con.AtGate()))
